@@ -26,7 +26,12 @@ func (s *Sim) Judge(stranded []string) []Finding {
 	}
 	s.pmu.Lock()
 	for _, p := range s.Panics {
-		add("C24", "engine-panicked", "panic inside the engine: %s", p)
+		for _, prop := range []string{"C24", "C25", "C26"} {
+			add(prop, "engine-panicked", "panic inside the engine: %s", p)
+		}
+	}
+	for _, t := range s.TimerIdle {
+		add("C25", "retry-timer-not-pending", "%s", t)
 	}
 	s.pmu.Unlock()
 	for _, p := range s.Problems {
